@@ -2,7 +2,7 @@
 (R-SYM); a saved and loaded store carries every persistent field (R-FLOW); file headers agree
 between writer and reader (R-PAIR)."""
 from vlib import fixtures
-from rules import sym, flow, pair
+from rules import sym, flow, pair, sibling
 from vlib.mir import Fn, op_local
 from vlib.run import Broken
 
@@ -12,7 +12,11 @@ DZ = "compression::dict_zip::blob_store::DictZipBlobStore::"
 
 def run(ctx):
     fx = ctx.facts("default")
-    fixtures.run(ctx, ['pair'])
+    fixtures.run(ctx, ['pair', 'batch'])
+    # batch operations do to the store's state what the single-item operations do
+    bfiles = sorted({fx.raw(f)['file'] for f in fx.fn_ids() if fx.raw(f)['file'].startswith('src/blob_store/') or fx.raw(f)['file'] == 'src/compression/dict_zip/blob_store.rs'})
+    sibling.batch_effects(ctx, fx, bfiles)
+    ctx.floor('R-SIBLING.batch.pairs', 6)
     fl = sym.Flow(fx)
     nimpl = 0
     nwrap = 0
